@@ -572,7 +572,7 @@ def call_lambda(ev, fv, args, kwargs, node):
 def call_closure(ev, fv, args, kwargs, node):
     fnode, frame = fv.data
     if ev.pure:
-        ev.unsupported(node, "closure call in a pure context")
+        return pure_closure(ev, fv, args, kwargs, node)
     nf = Frame(frame.contract, frame.relpath, frame.clsname, {}, parent=frame, fn=fnode)
     sub = Ev(ev.st, nf, ev.registry)
     env = bind_params(Ev(ev.st, frame, ev.registry, pure=True), fnode.args, args, kwargs, node)
@@ -582,6 +582,53 @@ def call_closure(ev, fv, args, kwargs, node):
     except _Return as r:
         return r.value
     return NONE
+
+
+def pure_closure(ev, fv, args, kwargs, node):
+    """a small closure (assignments, if/else, return; no loops) evaluated in a pure context: branches are merged
+    with if-then-else terms"""
+    fnode, frame = fv.data
+    nf = Frame(frame.contract, frame.relpath, frame.clsname, {}, parent=frame, fn=fnode)
+    sub = ev.sub(frame=nf)
+    nf.env.update(bind_params(Ev(ev.st, frame, ev.registry, pure=True), fnode.args, args, kwargs, node))
+
+    def run(stmts, env):
+        env = dict(env)
+        for i, s in enumerate(stmts):
+            nf.env = env
+            sub.frame = nf
+            if isinstance(s, ast.Return):
+                return sub.expr(s.value) if s.value is not None else NONE
+            if isinstance(s, (ast.Assign, ast.AnnAssign)):
+                tgts = s.targets if isinstance(s, ast.Assign) else [s.target]
+                if s.value is None:
+                    continue
+                v = sub.expr(s.value)
+                for t in tgts:
+                    if not isinstance(t, ast.Name):
+                        raise Unsupported("pure closure: assignment target")
+                    env[t.id] = v
+                continue
+            if isinstance(s, ast.If):
+                c = sub.cond(s.test)
+                rest = stmts[i + 1:]
+                sub.guards.append(c)
+                try:
+                    a = run(list(s.body) + rest, env)
+                finally:
+                    sub.guards.pop()
+                sub.guards.append(z3.Not(c))
+                try:
+                    b = run(list(s.orelse) + rest, env)
+                finally:
+                    sub.guards.pop()
+                return ev.ite(c, a, b)
+            if isinstance(s, ast.Expr) and isinstance(s.value, ast.Constant):
+                continue
+            raise Unsupported("pure closure: statement %s" % s.__class__.__name__)
+        return NONE
+
+    return run(list(fnode.body), nf.env)
 
 
 def construct(ev: Ev, cls: VClass, args, kwargs, node):
@@ -965,6 +1012,8 @@ def b_int(ev, args, kwargs, node):
     if isinstance(v, VNone):
         ev.require(False, "TypeError", node)
         raise Unsupported("unconditional failure in a pure context: int(None)")
+    if isinstance(v, VOpaque) and v.sort == "Float":
+        return VInt(ufunc("floor_int", opaque_sort("Float"), I)(v.t))
     raise Unsupported("int() of %r" % (v,))
 
 
